@@ -32,9 +32,11 @@ impl Rng {
 }
 
 /// benign names valid in every format (no Han keyword characters, no leading `_`, no edge `-`)
-pub const NAMES_COMMON: [&str; 22] = [
+pub const NAMES_COMMON: [&str; 25] = [
     "a", "b", "c", "x1", "SELF", "go-to", "a_b", "9", "007", "w0rd", "Z", "ball", "left", "q",
     "名", "词项", "格点-4-5", "😀", "🔑k", "é", "ß9", "x_",
+    // `_` and `-` next to each other without forming the README grammar's `punct "-" punct` copula pattern (K3)
+    "a_-b", "p-_q", "k_9-z",
 ];
 
 pub fn name(r: &mut Rng) -> String {
